@@ -12,7 +12,7 @@ LEVEL = 'exploration'
 BUDGET = {'quick': 200, 'thorough': 2400}
 CHUNK = 2
 RULE = ('Cases: an ancestor with 1..3 planted insertions/deletions of length 1..10 (< k), >= 4k apart and from the ends, every '
-        'non-trivial carrier set of 3..8 samples (one case in seven: 10..13 samples of which one is a partial assembly that does not reach one of the indels and must be genotyped missing there; in a third of those one sample also holds a diverged copy of the surroundings of an indel as a second contig, which puts an ambiguity code on the split k-mer that starts the indel's branch), k in {11,15,21,31}, threads 1..4 (a share with seeded jitter), samples in random '
+        'non-trivial carrier set of 3..8 samples (one case in seven: 10..13 samples of which one is a partial assembly that does not reach one of the indels and must be genotyped missing there; in a third of those one sample also holds a diverged copy of the surroundings of an indel as a second contig, which puts an ambiguity code on the split k-mer that starts the branch of the indel), k in {11,15,21,31}, threads 1..4 (a share with seeded jitter), samples in random '
         'orientation, a quarter of the runs writing over larger output files of an earlier run under the same prefix, a third with dots in the output prefix, -m at its default, 0, 0.1 and 0.5; the generator rejects inputs in which a (k-1)-mer occurs at two different loci (or on both strands, or is self-complementary) over the union of the samples, the ancestor and the single-indel genomes.  '
         'Every record of <out>_indels.vcf is checked by substring tests on the sample sequences the generator wrote: '
         'before+REF+after (or its reverse complement; - = empty) occurs in exactly the samples genotyped 0, before+ALT+after in '
